@@ -669,6 +669,44 @@ pub fn run_entry<K: KeyT, V: ValT>(m: &mut M<K, V>, _other: &mut M<K, V>, name: 
                 }
             }
         }
+        ("entry_and_replace_panic", 2) => {
+            let key = K::new(n(0), n(1));
+            let e = m.entry(key);
+            let t = etag(&e);
+            let _ = e.and_replace_entry_with(|_k, _v| -> Option<V> { std::panic::panic_any(tape::TapePanic("pred")) });
+            t.into()
+        }
+        ("entry_or_insert_with_panic", 2) => {
+            let key = K::new(n(0), n(1));
+            let e = m.entry(key);
+            let t = etag(&e);
+            let _ = e.or_insert_with(|| -> V { std::panic::panic_any(tape::TapePanic("pred")) });
+            t.into()
+        }
+        ("entry_and_modify_panic", 2) => {
+            let key = K::new(n(0), n(1));
+            let e = m.entry(key);
+            let t = etag(&e);
+            let e2 = e.and_modify(|_v| std::panic::panic_any(tape::TapePanic("pred")));
+            drop(e2);
+            t.into()
+        }
+        // raw entries: `replace_entry_with` (a[2] = "occ") / `and_replace_entry_with` (a[2] = "and") with a
+        // closure that panics
+        ("raw_replace_panic", 3) => {
+            let k = n(1);
+            let e = raw_look(m, a[0], k);
+            let t = match &e {
+                RawEntryMut::Occupied(_) => "occ",
+                RawEntryMut::Vacant(_) => "vac",
+            };
+            if a[2] == "and" {
+                let _ = e.and_replace_entry_with(|_k, _v| -> Option<V> { std::panic::panic_any(tape::TapePanic("pred")) });
+            } else if let RawEntryMut::Occupied(o) = e {
+                let _ = o.replace_entry_with(|_k, _v| -> Option<V> { std::panic::panic_any(tape::TapePanic("pred")) });
+            }
+            t.into()
+        }
         ("try_insert", 4) => {
             let (k, kid) = (n(0), n(1));
             let key = K::new(k, kid);
@@ -1097,7 +1135,9 @@ pub fn moved_in(name: &str, a: &[&str]) -> Vec<String> {
         _ => {}
     };
     match name {
-        "entry_replace_panic" if a.len() == 2 => out.push(format!("k{}", a[1])),
+        "entry_replace_panic" | "entry_and_replace_panic" | "entry_or_insert_with_panic" | "entry_and_modify_panic" if a.len() == 2 => {
+            out.push(format!("k{}", a[1]))
+        }
         "entry" | "rustc_entry" if a.len() >= 3 => {
             out.push(format!("k{}", a[1]));
             chain_val(&a[2..], &mut out);
